@@ -6,12 +6,12 @@ NAME=$1; PROP=$2; SRC=$3; TESTS=$4
 WT=/tmp/seedverify_$$
 git -C /repo worktree add -q --detach $WT HEAD || exit 3
 cd $WT
-PYTHONPATH=$WT timeout 600 /venv/bin/python $SRC/demo.py >/tmp/sv_clean.log 2>&1; CLEAN=$?
+PYTHONPATH=$WT timeout 600 ${PY:-/venv/bin/python} $SRC/demo.py >/tmp/sv_clean.log 2>&1; CLEAN=$?
 git apply $SRC/patch.diff || { echo "patch does not apply"; cd /; git -C /repo worktree remove --force $WT; exit 3; }
-PYTHONPATH=$WT timeout 600 /venv/bin/python $SRC/demo.py >/tmp/sv_mut.log 2>&1; MUT=$?
+PYTHONPATH=$WT timeout 600 ${PY:-/venv/bin/python} $SRC/demo.py >/tmp/sv_mut.log 2>&1; MUT=$?
 TP="skipped"
 if [ -n "$TESTS" ]; then
-  PYTHONPATH=$WT timeout 3000 /venv/bin/python -m pytest -q -p no:cacheprovider --timeout=900 $TESTS >/tmp/sv_tests.log 2>&1; TRC=$?
+  PYTHONPATH=$WT timeout 3000 ${PY:-/venv/bin/python} -m pytest -q -p no:cacheprovider --timeout=900 $TESTS >/tmp/sv_tests.log 2>&1; TRC=$?
   TP=$(grep -aE "passed|failed" /tmp/sv_tests.log | grep -av DEBUG | tail -1 | sed 's/\x1b\[[0-9;]*m//g')
 else TRC=0; fi
 cd /; git -C /repo worktree remove --force $WT
